@@ -20,6 +20,7 @@ import (
 	"github.com/cloudflare/circl/vdaf/prio3/mhcv"
 	"github.com/cloudflare/circl/vdaf/prio3/sum"
 	"github.com/cloudflare/circl/vdaf/prio3/sumvec"
+	"github.com/cloudflare/circl/zz_verif/ref/prio3xof"
 	"github.com/cloudflare/circl/zz_verif/vlib"
 	"pgregory.net/rapid"
 )
@@ -506,6 +507,62 @@ func aggEqual(c *icase, got any, want []*big.Int) (equal, representable bool) {
 func measBytes(m any) []byte { return []byte(fmt.Sprintf("%v", m)) }
 
 // ---------------------------------------------------------------------------
+// derivations (draft-13 §7.2.1): the input shares are an additive sharing of
+// the encoded measurement whose helper parts are expanded from the seeds in
+// rand with the aggregator id as binder; the public share holds the joint
+// randomness parts (bound to blind, id, nonce and measurement share), the
+// prep message their seed. Recomputed with ref/prio3xof.
+
+func checkDerivations(t vlib.TB, c *icase, r *report) bool {
+	l := c.I.L()
+	n := l.shares
+	name := c.name
+	step := seedSize
+	if l.jr {
+		step = 2 * seedSize
+	}
+	detail := func(s string) string {
+		return fmt.Sprintf("%s measurement %v nonce %x rand %s: %s", c.desc, r.m, r.nonce, vlib.Hex(r.rand), s)
+	}
+	sum := prio3xof.DecodeVec(r.ins[0][:l.measLen*l.fs], l.fs)
+	var parts []byte
+	if l.jr {
+		leaderBlind := r.rand[(n-1)*step : (n-1)*step+seedSize]
+		if !bytes.Equal(r.ins[0][len(r.ins[0])-seedSize:], leaderBlind) {
+			return vlib.Report(t, "C19/derivation/"+name+"/leader-blind", detail("the leader's blind is not the seed the specification takes from rand"))
+		}
+		parts = append(parts, prio3xof.JointRandPart(c.algID, c.ctx, 0, leaderBlind, r.nonce[:], r.ins[0][:l.measLen*l.fs])...)
+	}
+	for i := 1; i < n; i++ {
+		want := r.rand[(i-1)*step : i*step]
+		if !bytes.Equal(r.ins[i], want) {
+			return vlib.Report(t, "C19/derivation/"+name+"/helper-share-encoding", detail(fmt.Sprintf("helper %d input share %x, want seed (and blind) %x", i, r.ins[i], want)))
+		}
+		h := prio3xof.HelperMeasShare(c.algID, c.ctx, uint8(i), want[:seedSize], l.p, l.fs, l.measLen)
+		for j := range sum {
+			sum[j].Add(sum[j], h[j])
+			sum[j].Mod(sum[j], l.p)
+		}
+		if l.jr {
+			parts = append(parts, prio3xof.JointRandPart(c.algID, c.ctx, uint8(i), want[seedSize:], r.nonce[:], prio3xof.EncodeVec(h, l.fs))...)
+		}
+	}
+	if exp := c.encode(r.m); !vecEq(sum, exp) {
+		return vlib.Report(t, "C19/derivation/"+name+"/meas-shares", detail(fmt.Sprintf("leader share plus specified helper shares = %s, encoded measurement = %s", fmtVec(sum), fmtVec(exp))))
+	}
+	if l.jr {
+		if !bytes.Equal(parts, r.pub) {
+			return vlib.Report(t, "C19/derivation/"+name+"/joint-rand-parts", detail(fmt.Sprintf("public share %x, specified joint randomness parts %x", r.pub, parts)))
+		}
+		if seed := prio3xof.JointRandSeed(c.algID, c.ctx, parts); !bytes.Equal(seed, r.prepMsg) {
+			return vlib.Report(t, "C19/derivation/"+name+"/joint-rand-seed", detail(fmt.Sprintf("prep message %x, specified joint randomness seed %x", r.prepMsg, seed)))
+		}
+	}
+	vlib.Class("batch/"+name, "derivations-recomputed")
+	return false
+}
+
+// ---------------------------------------------------------------------------
 // the batch property
 
 func batchProperty(t *rapid.T, name string, shares uint8, large bool, maxBatch int) {
@@ -723,6 +780,11 @@ func batchProperty(t *rapid.T, name string, shares uint8, large bool, maxBatch i
 				return
 			}
 			aggs[i] = a
+		}
+		if k == 0 && n <= 16 {
+			if checkDerivations(t, c, r) {
+				return
+			}
 		}
 		accepted++
 		want = addVec(want, c.output(m))
@@ -1023,5 +1085,9 @@ func selftest(t *testing.T) {
 	if x := bitsOf(6, 4); x[0].Sign() != 0 || x[1].Cmp(big.NewInt(1)) != 0 || x[2].Cmp(big.NewInt(1)) != 0 || x[3].Sign() != 0 {
 		fail("bitsOf")
 	}
+	if err := prio3xof.SelfTest(vlib.Harness); err != nil {
+		fail("ref/prio3xof: %v", err)
+	}
 	vlib.Selftest("C19 field constants, element codec, bit encoding", "ok")
+	vlib.Selftest("ref/prio3xof (XofTurboShake128 and share/joint-randomness derivations) against the draft's XofTurboShake128, Prio3Sum_1 and Prio3Histogram_1 vectors; ref/keccak against RFC 9861", "ok")
 }
